@@ -75,6 +75,7 @@ type source struct {
 	canon   []*chain.Blk
 	canonIx map[felt.Felt]struct{}
 	ever    map[felt.Felt]*chain.Blk // every block ever on a canonical path or preloaded
+	declaredBy map[felt.Felt]felt.Felt // class hash -> block that declared it in the last valid answer
 	served  map[felt.Felt]struct{}   // blocks handed out untampered
 
 	clock uint64 // requests + source changes
@@ -344,6 +345,15 @@ func (s *source) BlockByNumber(ctx context.Context, n uint64) (jsync.CommittedBl
 	} else {
 		s.served[r.hash] = struct{}{}
 		s.stats["valid_blocks_served"]++
+		for h := range orig.Classes {
+			if s.declaredBy == nil {
+				s.declaredBy = map[felt.Felt]felt.Felt{}
+			}
+			if prev, ok := s.declaredBy[h]; ok && !prev.Equal(&r.hash) {
+				s.stats["valid_blocks_served_that_declare_a_class_also_declared_on_another_fork"]++
+			}
+			s.declaredBy[h] = r.hash
+		}
 		if s.hold != nil && n == s.hold.height+1 && s.hold.waiting > 0 && !s.hold.succOK {
 			s.hold.succOK = true
 			close(s.hold.succ)
@@ -420,6 +430,69 @@ func (s *source) PreConfirmedBlockLatest(context.Context, string, uint64) (stark
 
 func (s *source) Class(context.Context, *felt.Felt) (core.ClassDefinition, error) {
 	return nil, errors.New("verif source: classes travel with the block")
+}
+
+// feederView presents the scripted source as starknetdata.StarknetData, so that the
+// production DataSource (sync.NewFeederGatewayDataSource: block + state update in one
+// request, then one request per class the node's head state does not hold yet) sits
+// between the source and the synchroniser instead of the source's own DataSource methods.
+type feederView struct{ s *source }
+
+func (f feederView) StateUpdateWithBlock(ctx context.Context, n uint64) (*core.StateUpdate, *core.Block, error) {
+	cb, err := f.s.BlockByNumber(ctx, n)
+	if err != nil {
+		return nil, nil, err
+	}
+	return cb.StateUpdate, cb.Block, nil
+}
+
+func (f feederView) StateUpdate(ctx context.Context, n uint64) (*core.StateUpdate, error) {
+	su, _, err := f.StateUpdateWithBlock(ctx, n)
+	return su, err
+}
+
+func (f feederView) BlockByNumber(ctx context.Context, n uint64) (*core.Block, error) {
+	_, b, err := f.StateUpdateWithBlock(ctx, n)
+	return b, err
+}
+
+func (f feederView) BlockHeaderLatest(ctx context.Context) (core.Header, error) {
+	h, err := f.s.BlockHeaderLatest(ctx)
+	if err != nil {
+		return core.Header{}, err
+	}
+	return *h, nil
+}
+
+func (f feederView) BlockLatest(ctx context.Context) (*core.Block, error) {
+	return nil, errors.New("verif source: BlockLatest is not used by the synchroniser")
+}
+
+func (f feederView) Transaction(context.Context, *felt.Felt) (core.Transaction, error) {
+	return nil, errors.New("verif source: no transaction endpoint")
+}
+
+// Class serves the definition of any class that any block ever published by the source
+// declares (the feeder gateway serves classes by hash, independently of forks).
+func (f feederView) Class(_ context.Context, h *felt.Felt) (core.ClassDefinition, error) {
+	f.s.mu.Lock()
+	defer f.s.mu.Unlock()
+	f.s.stats["class_requests"]++
+	for _, b := range f.s.ever {
+		if c, ok := b.Classes[*h]; ok {
+			return c, nil
+		}
+	}
+	f.s.stats["class_requests_unknown_hash"]++
+	return nil, errors.New("verif source: class not found")
+}
+
+func (f feederView) PreConfirmedBlockByNumber(context.Context, uint64, string, uint64) (starknet.PreConfirmedUpdate, error) {
+	return nil, errors.New("verif source: no pre-confirmed data")
+}
+
+func (f feederView) PreConfirmedBlockLatest(context.Context, string, uint64) (starknet.PreConfirmedUpdate, uint64, error) {
+	return nil, 0, errors.New("verif source: no pre-confirmed data")
 }
 
 // headFacts is what the head-trace hook learns from the source, atomically with
